@@ -68,7 +68,7 @@ Theorem C10_callback_forced_old_refuted :
 Proof. exact callback_forced_old_refuted. Qed.
 Print Assumptions C10_callback_forced_old_refuted.
 
-(** std.mapWithIndex = makeArray(length, function(i) func(i, arr[i])); std.filter (ArrValue::filter: eager pass, abandoned at the first failing element, then the lazy pass) applies the predicate to every element thunk in order and keeps the thunks; std.filterMap = map(map_func, filter(filter_func, arr)); for EVERY function / predicate on ALL arrays of thunks. *)
+(** std.mapWithIndex = makeArray(length, function(i) func(i, arr[i])); std.filter (ArrValue::filter: one pass over the element thunks; the eager pre-pass of the old code is [filter_impl_old], removed by a fix: commit because it forced unneeded elements) applies the predicate to every element thunk in order and keeps the thunks; std.filterMap = map(map_func, filter(filter_func, arr)); for EVERY function / predicate on ALL arrays of thunks. *)
 Theorem C10_mapi_filter_refine :
   forall (A B : Type) (fi : nat -> option A -> option B) (f : option A -> option B)
          (p : option A -> option bool) (l : list (option A)),
